@@ -1,86 +1,169 @@
 #!/usr/bin/env python3
-"""Sensitivity runs: apply one small edit to /repo's working tree, confirm the pinned test suite
-still passes, run the listed checks (quick tier), record which fire, and revert the edit.
+"""Sensitivity runs against scratch copies (never touches /repo or /verif).
 
-usage: mutants.py [--only M01,M02] [--checks C01,C02] [--tier quick] [--skip-tests]
+For each mutant (a one-place edit from tools/mutants.json, or a patch file) a scratch slot under
+/tmp/fqmut/<slot>/ holds
+    repo/    a detached git worktree of /repo's HEAD with the edit applied
+    verif/   a copy of /verif (without build output) whose harness depends on that repo
+the pinned test suite is run in repo/, the harness is rebuilt once, and the listed checks are run
+(quick tier by default) with FQV_VERIF_DIR pointing at the scratch verif. Results go to
+tools/mutants_results.json (merged by mutant id).
 
-Never commits anything in /repo; the working tree is restored with `git checkout -- .` after every
-mutant (and on Ctrl-C)."""
-import json, os, subprocess, sys, time
+usage: mutants.py [--only M01,M02] [--checks C01,C02 | --all-checks] [--tier quick] [--jobs 4]
+                  [--patch file.diff --id S01 --expect C05]   (a patch instead of the table)
+                  [--cleanup]
+"""
+import json, os, shutil, subprocess, sys, time
+from concurrent.futures import ThreadPoolExecutor
 
 REPO = "/repo"
 VERIF = "/verif"
+ROOT = "/tmp/fqmut"
+ALL = ["C%02d" % i for i in range(1, 20)]
 
-# (id, expected properties, file, old, new, note)
-M = [
- ("M01", ["C02", "C01"], "src/hardcode.rs", "(2 << 24) | (68 << 16),  // (0 << 8) | 0", "(2 << 24) | (67 << 16) | (0 << 8) | 0,", "L V6 block size 68->67"),
-]
 
-def sh(cmd, cwd=None, timeout=3600):
-    return subprocess.run(cmd, shell=True, cwd=cwd, capture_output=True, text=True, timeout=timeout)
+def sh(cmd, cwd=None, env=None, timeout=7200):
+    e = dict(os.environ)
+    e["CARGO_NET_OFFLINE"] = "true"
+    if env:
+        e.update(env)
+    return subprocess.run(cmd, shell=True, cwd=cwd, capture_output=True, text=True, timeout=timeout, env=e)
 
-def load_extra():
-    p = os.path.join(VERIF, "tools", "mutants.json")
-    if os.path.exists(p):
-        for e in json.load(open(p)):
-            M.append((e["id"], e["expect"], e["file"], e["old"], e["new"], e.get("note", "")))
+
+def setup_slot(slot):
+    d = os.path.join(ROOT, str(slot))
+    repo = os.path.join(d, "repo")
+    verif = os.path.join(d, "verif")
+    if not os.path.exists(repo):
+        os.makedirs(d, exist_ok=True)
+        r = sh(f"git -C {REPO} worktree add --detach {repo} HEAD")
+        assert r.returncode == 0, r.stderr
+        # pre-built test target to avoid a cold build of the dev profile
+        if os.path.exists(f"{REPO}/target"):
+            sh(f"cp -a {REPO}/target {repo}/target")
+    else:
+        sh("git checkout -- . && git clean -fdq -e target", cwd=repo)
+        sh(f"git checkout -q --detach $(git -C {REPO} rev-parse HEAD)", cwd=repo)
+    # fresh copy of /verif sources (cheap), keep the slot's target dir
+    os.makedirs(verif, exist_ok=True)
+    sh(f"rsync -a --delete --exclude harness/target --exclude .git --exclude fuzz/target --exclude fuzz/corpus --exclude replays --exclude evidence {VERIF}/ {verif}/")
+    os.makedirs(f"{verif}/evidence", exist_ok=True)
+    if not os.path.exists(f"{verif}/harness/target") and os.path.exists(f"{VERIF}/harness/target"):
+        sh(f"cp -a {VERIF}/harness/target {verif}/harness/target")
+    ct = f"{verif}/harness/fqv/Cargo.toml"
+    s = open(ct).read().replace('path = "/repo"', f'path = "{repo}"')
+    open(ct, "w").write(s)
+    return repo, verif
+
+
+def run_mutant(slot, m, checks, tier, skip_tests):
+    repo, verif = setup_slot(slot)
+    res = {"id": m["id"], "note": m.get("note", ""), "expect": m.get("expect", [])}
+    if "patch" in m:
+        r = sh(f"git apply {m['patch']}", cwd=repo)
+        if r.returncode != 0:
+            res["status"] = "patch_does_not_apply: " + r.stderr[:200]
+            return res
+    else:
+        full = os.path.join(repo, m["file"])
+        src = open(full).read()
+        if src.count(m["old"]) != 1:
+            res["status"] = f"pattern occurs {src.count(m['old'])} times"
+            return res
+        open(full, "w").write(src.replace(m["old"], m["new"]))
+    if not skip_tests:
+        t = sh("cargo test --workspace --no-fail-fast --offline --lib 2>&1 | grep 'test result'", cwd=repo)
+        res["tests_pass"] = "174 passed; 0 failed" in t.stdout
+        res["tests_line"] = t.stdout.strip()[:120]
+    b = sh("cargo build --release --offline -p fqv 2>&1 | tail -30", cwd=f"{verif}/harness")
+    if not os.path.exists(f"{verif}/harness/target/release/fqv") or "error" in b.stdout and "could not compile" in b.stdout:
+        res["status"] = "harness_build_failed"
+        res["build_tail"] = b.stdout[-600:]
+        return res
+    fired = {}
+    for c in checks:
+        t0 = time.time()
+        r = sh(f"{verif}/harness/target/release/fqv {c} {tier}", cwd=verif, env={"FQV_VERIF_DIR": verif})
+        lines = r.stdout.splitlines()
+        viol = [l for l in lines if l.startswith("VIOLATION")]
+        detail = [l.strip() for l in lines if l.strip().startswith("detail:")]
+        fired[c] = {"rc": r.returncode, "violation": bool(viol), "wall": round(time.time() - t0, 1),
+                    "detail": detail[0][:400] if detail else ("" if r.returncode in (0, 1) else (r.stdout + r.stderr)[-300:])}
+        # keep the first replay for the record
+        if viol:
+            try:
+                path = viol[0].split("replay=")[1].strip()
+                fired[c]["replay_sig"] = json.load(open(path)).get("signature", "")
+            except Exception:
+                pass
+    res["fired"] = fired
+    res["detected_by"] = [c for c, v in fired.items() if v["rc"] == 1 and v["violation"]]
+    res["status"] = "ok"
+    return res
+
 
 def main():
-    args = sys.argv[1:]
-    only = None
-    checks_override = None
-    tier = "quick"
-    skip_tests = False
+    a = sys.argv[1:]
+    opt = {"only": None, "checks": None, "tier": "quick", "jobs": 4, "skip_tests": False, "patch": None, "id": None, "expect": None, "all": False}
     i = 0
-    while i < len(args):
-        if args[i] == "--only":
-            only = args[i + 1].split(","); i += 2
-        elif args[i] == "--checks":
-            checks_override = args[i + 1].split(","); i += 2
-        elif args[i] == "--tier":
-            tier = args[i + 1]; i += 2
-        elif args[i] == "--skip-tests":
-            skip_tests = True; i += 1
-        else:
-            i += 1
-    load_extra()
-    assert sh("git status --porcelain", cwd=REPO).stdout.strip() == "", "/repo working tree not clean"
+    while i < len(a):
+        if a[i] == "--only": opt["only"] = a[i + 1].split(","); i += 2
+        elif a[i] == "--checks": opt["checks"] = a[i + 1].split(","); i += 2
+        elif a[i] == "--all-checks": opt["all"] = True; i += 1
+        elif a[i] == "--tier": opt["tier"] = a[i + 1]; i += 2
+        elif a[i] == "--jobs": opt["jobs"] = int(a[i + 1]); i += 2
+        elif a[i] == "--skip-tests": opt["skip_tests"] = True; i += 1
+        elif a[i] == "--patch": opt["patch"] = os.path.abspath(a[i + 1]); i += 2
+        elif a[i] == "--id": opt["id"] = a[i + 1]; i += 2
+        elif a[i] == "--expect": opt["expect"] = a[i + 1].split(","); i += 2
+        elif a[i] == "--cleanup":
+            for d in sorted(os.listdir(ROOT)) if os.path.exists(ROOT) else []:
+                sh(f"git -C {REPO} worktree remove --force {ROOT}/{d}/repo")
+            shutil.rmtree(ROOT, ignore_errors=True)
+            sh(f"git -C {REPO} worktree prune")
+            print("cleaned"); return
+        else: i += 1
+    if opt["patch"]:
+        muts = [{"id": opt["id"] or "PATCH", "patch": opt["patch"], "expect": opt["expect"] or [], "note": os.path.basename(opt["patch"])}]
+    else:
+        muts = json.load(open(f"{VERIF}/tools/mutants.json"))
+        if opt["only"]:
+            muts = [m for m in muts if m["id"] in opt["only"]]
+    jobs = max(1, min(opt["jobs"], len(muts)))
+    queue = list(muts)
     results = []
-    try:
-        for (mid, expect, path, old, new, note) in M:
-            if only and mid not in only:
-                continue
-            full = os.path.join(REPO, path)
-            src = open(full).read()
-            if src.count(old) != 1:
-                print(f"{mid}: SKIP pattern occurs {src.count(old)} times in {path}")
-                results.append({"id": mid, "status": "pattern_mismatch"})
-                continue
-            open(full, "w").write(src.replace(old, new))
+
+    def worker(slot):
+        out = []
+        while queue:
             try:
-                tests_ok = None
-                if not skip_tests:
-                    t = sh("cargo test --workspace --no-fail-fast --offline --lib 2>&1 | grep 'test result'", cwd=REPO)
-                    tests_ok = "174 passed; 0 failed" in t.stdout
-                fired = {}
-                for c in (checks_override or expect):
-                    t0 = time.time()
-                    r = sh(f"./check.sh {c} {tier}", cwd=VERIF)
-                    viol = [l for l in r.stdout.splitlines() if l.startswith("VIOLATION")]
-                    detail = [l for l in r.stdout.splitlines() if l.strip().startswith("detail:")]
-                    fired[c] = {"rc": r.returncode, "violation": bool(viol), "wall": round(time.time() - t0, 1),
-                                "detail": (detail[0][:300] if detail else (r.stdout[-300:] if r.returncode not in (0, 1) else ""))}
-                det = [c for c, v in fired.items() if v["rc"] == 1 and v["violation"]]
-                print(f"{mid}: tests_pass={tests_ok} detected_by={det} missed_by={[c for c in fired if c not in det]}  ({note})")
-                for c, v in fired.items():
-                    if v["detail"]:
-                        print(f"     {c}: {v['detail']}")
-                results.append({"id": mid, "note": note, "tests_pass": tests_ok, "fired": fired})
-            finally:
-                sh("git checkout -- .", cwd=REPO)
-    finally:
-        sh("git checkout -- .", cwd=REPO)
-    out = os.path.join(VERIF, "tools", "mutants_last_run.json")
-    json.dump(results, open(out, "w"), indent=1)
+                m = queue.pop(0)
+            except IndexError:
+                break
+            checks = ALL if opt["all"] else (opt["checks"] or m.get("expect") or ALL)
+            try:
+                r = run_mutant(slot, m, checks, opt["tier"], opt["skip_tests"])
+            except Exception as e:
+                r = {"id": m["id"], "status": "exception: %r" % e}
+            det = r.get("detected_by")
+            print(f"{r['id']}: status={r.get('status')} tests_pass={r.get('tests_pass')} detected_by={det} "
+                  f"missed_by={[c for c in r.get('fired', {}) if c not in (det or [])]} ({r.get('note','')})", flush=True)
+            for c, v in r.get("fired", {}).items():
+                if v.get("detail"):
+                    print(f"      {c} [{v.get('replay_sig','')}] {v['detail'][:260]}", flush=True)
+            out.append(r)
+        return out
+
+    with ThreadPoolExecutor(max_workers=jobs) as ex:
+        for out in ex.map(worker, range(jobs)):
+            results.extend(out)
+    path = f"{VERIF}/tools/mutants_results.json"
+    old = {}
+    if os.path.exists(path):
+        old = {r["id"]: r for r in json.load(open(path))}
+    for r in results:
+        old[r["id"]] = r
+    json.dump(sorted(old.values(), key=lambda r: r["id"]), open(path, "w"), indent=1)
+
 
 main()
